@@ -32,9 +32,9 @@ class RunCtx:
             self._facts[k] = factsmod.Facts(self._paths[cfg][crate])
         return self._facts[k]
 
-    def fixture(self, name):
+    def fixture(self, name, src_dir=None):
         if name not in self._fixtures:
-            p = factsmod.build_fixture(name, os.path.join(VERIF, 'fixtures', name))
+            p = factsmod.build_fixture(name, src_dir or os.path.join(VERIF, 'fixtures', name))
             self._fixtures[name] = factsmod.Facts(p)
         return self._fixtures[name]
 
